@@ -49,7 +49,7 @@ def dump_mir():
 
 
 def struct_fields(src, name):
-    m = re.search(r"pub struct %s \{\n(.*?)\n\}" % name, src, flags=re.S)
+    m = re.search(r"^(?:pub(?:\([^)]*\))? )?struct %s \{\n(.*?)\n\}" % name, src, flags=re.S | re.M)
     if not m:
         raise Unknown("struct %s not found in vm.rs" % name)
     fields = []
